@@ -7,6 +7,8 @@ import (
 	"path/filepath"
 	"sync/atomic"
 	"time"
+
+	"github.com/samaritan-proxy/samaritan/proc/redis"
 )
 
 func readLines(path string) []string {
@@ -70,3 +72,14 @@ func waitFor(max time.Duration, cond func() bool) bool {
 var procSeq int64
 
 func nextProcSeq() int64 { return atomic.AddInt64(&procSeq, 1) }
+
+// envDo: one request through the white-box environment; a reply that is still being changed after the request has
+// completed (a session writer may encode it from that moment on) is reported as an error no model produces
+func envDo(e *redis.VerifEnv, v *redis.RespValue, timeout time.Duration) (*redis.RespValue, bool) {
+	reply, timedOut, stable := e.DoChecked(v, timeout)
+	if !stable {
+		bad := redis.RespValue{Type: redis.Error, Text: []byte("REPLY-CHANGED-AFTER-COMPLETION")}
+		return &bad, false
+	}
+	return reply, timedOut
+}
